@@ -1,5 +1,5 @@
 import Wx.Job.C07
-import Wx.Job.Sim
+import Wx.Job.Inject
 /-! C07 continued: receive logic, turns, and every state the simulator reaches with API-shaped sends. -/
 namespace Jm
 
@@ -404,6 +404,7 @@ theorem inv7_doSend {x : Sim} (p : Prio) (cs : List Ctl) (aw : Bool) (hs : ∀ c
 /-- operations a client of the `Job` handle can perform -/
 def OpOk : Op → Prop
   | .send p cs _ => ∀ c ∈ cs, ShapeOk p c
+  | .inject p cs _ => ∀ c ∈ cs, ShapeOk p c
   | _ => True
 
 theorem inv7_stepOp {x : Sim} (o : Op) (ho : OpOk o) (h : Inv7 x.st) : ∀ y ∈ stepOp x o, Inv7 y.st := by
@@ -421,6 +422,9 @@ theorem inv7_stepOp {x : Sim} (o : Op) (ho : OpOk o) (h : Inv7 x.st) : ∀ y ∈
   | dropHandles =>
     simp only [stepOp, List.mem_singleton] at hy; subst hy
     exact inv7_quiet (s := x.st) ⟨⟨rfl, rfl, rfl, rfl, rfl, rfl, rfl, rfl⟩, rfl⟩ h
+  | inject p cs aw =>
+    simp only [stepOp] at hy
+    exact injectAll_ind (fun z => Inv7 z.st) p cs aw (fun z s' hz hs' => inv7_turns hz s' hs') (fun z hz => inv7_doSend p cs aw ho hz) 50 h y hy
 
 theorem inv7_runOps (ops : List Op) (hok : ∀ o ∈ ops, OpOk o) {x : Sim} (h : Inv7 x.st) :
     ∀ y ∈ runOps x ops, Inv7 y.st := by
